@@ -114,6 +114,15 @@ pub fn judge(case: &FmtCase, obs: &[CallObs]) -> Result<Judged, String> {
     }
     for (i, (call, o)) in case.calls.iter().zip(obs.iter()).enumerate() {
         let ev = expected_value(call.entry, &call.val)?;
+        if let Some(p) = o.panic.as_ref().filter(|p| p.contains(crate::util::HARNESS_PANIC)) {
+            // the user's error handler panicked (harness-injected): the handler must have been
+            // reached exactly once for this call; nothing else about this call is judged
+            let _ = p;
+            if o.handler.len() != 1 {
+                out.push(f(Aspect::Outcome, i, format!("handler log for the call whose handler panicked: {:?}", o.handler)));
+            }
+            continue;
+        }
         if let Some(p) = &o.panic {
             out.push(f(Aspect::Panic, i, format!("call panicked: {}", p)));
             if call.form == Form::Quiet {
